@@ -109,8 +109,8 @@ P["C08"] = {
     "design_ref": "DESIGN.md §8 C08, Appendix B", "assumptions": TIERA_ASSUME,
     "bounds": "Tier A: histories of <= 3 calls (Execute, ExecuteWithContext with a cancellable context, FetchMatchingRules) on one instance, n <= 3 rules, K <= 2 firings per call; every way of ending arises from the stubs",
     "outside": "leaked memo values of real expressions (Tier B); longer histories",
-    "runs": [histA(2, 1, 2, fRetract, QT), histA(2, 1, 2, fRetract | fActErr, QT), histA(2, 2, 2, fRetract, T), histA(2, 1, 2, fRetract | fErr | fFlag, T), histA(2, 1, 3, fRetract, T), histA(3, 1, 2, fRetract, T),
-             histA(2, 2, 2, fRetract | fCancel, T), histA(2, 1, 2, fRetract | fErr | fFlag | fDeleted, T)]}
+    "runs": [histA(2, 1, 2, fRetract, QT), histA(2, 1, 2, fRetract | fActErr, QT), histA(2, 2, 2, 0, T), histA(2, 1, 2, fErr | fFlag, T), histA(2, 1, 3, fRetract, T), histA(3, 1, 2, fRetract, T),
+             histA(2, 1, 2, fCancel, T), histA(2, 1, 2, fErr | fFlag | fDeleted, T)]}
 P["C16"] = {
     "design_ref": "DESIGN.md §8 C16", "assumptions": TIERA_ASSUME,
     "bounds": "Tier A: removed (Deleted) entries among n <= 4 rules are never evaluated, fired or returned",
